@@ -137,6 +137,23 @@ static void run_loop(std::ostringstream& o, Instance& inst, const kv_t& kv) {
         catch (std::exception& e) { fail = true; exc = e.what(); if (exc.empty()) exc = "?"; }
     }
     finish(o, inst, fail, exc, steps);
+    int again = (int)geti(kv, "again", 0);
+    if (mode == "step" && fail && again > 0) {
+        // the user may keep stepping after a failed step: every further step must fail the same way and leave the state alone
+        std::ostringstream d1, d2; dump(d1, inst.env);
+        std::string first_exc = exc;
+        std::string first_err = exc.empty() ? ScriptErrorString(*inst.env->serror) : "exception thrown: " + exc;
+        o << ",\"again\":[";
+        for (int i = 0; i < again; ++i) {
+            bool acc; std::string err;
+            if (inst.env->done) { acc = false; err = "done"; }
+            else { acc = inst.step(); err = acc ? "" : (inst.exception_string.empty() ? ScriptErrorString(*inst.env->serror) : "exception thrown: " + inst.exception_string); }
+            o << (i ? "," : "") << "{\"acc\":" << acc << ",\"err\":\"" << jesc(err) << "\"}";
+        }
+        dump(d2, inst.env);
+        o << "],\"again_same_state\":" << (d1.str() == d2.str() ? 1 : 0) << ",\"first_err\":\"" << jesc(first_err) << "\"";
+        exc = first_exc;
+    }
 }
 
 static void cmd_run(const kv_t& kv) {
